@@ -69,6 +69,24 @@ fn gen_px(rng: &mut Rng, kind: u64, idx: u64) -> [f32; 3] {
     }
 }
 
+/// input class of a linear pixel for violation signatures
+fn xyb_class(p: [f32; 3]) -> &'static str {
+    let mx = p[0].max(p[1]).max(p[2]);
+    if p.iter().any(|v| *v < 0.0) {
+        "negative-component"
+    } else if p[0] == p[1] && p[1] == p[2] {
+        "exact-grey"
+    } else if mx < 1e-3 {
+        "near-black"
+    } else if (p[0] - p[1]).abs() < 1e-3 * mx && (p[1] - p[2]).abs() < 1e-3 * mx {
+        "near-grey"
+    } else if mx > 1.0 {
+        "hdr(>1)"
+    } else {
+        "unit-cube"
+    }
+}
+
 fn in_c04_domain(p: [f32; 3]) -> bool {
     if !p.iter().all(|v| *v >= -1.0 && *v <= 4.0) {
         return false;
@@ -194,7 +212,7 @@ fn run_xyb(ctx: &Ctx, roundtrip: bool) {
         ev::sample(j.clone());
         if !(w.err <= tol) {
             ev::violation(
-                format!("{prop}|{}", if roundtrip { "roundtrip" } else { "forward" }),
+                format!("{prop}|{}|{}", if roundtrip { "roundtrip" } else { "forward" }, xyb_class(p)),
                 format!("pixel {p:?} component {c}: got {got:e}, want {want:e}, |err| {:.3e} > {tol:e}", w.err),
                 j,
             );
